@@ -141,6 +141,10 @@ class TreeStorage(BaseStorage):
         self.num_feature_names = num_feature_names
         self._leaf_reservoir_length = leaf_reservoir_length
         self._seen_samples = 0
+        if seed is None:
+            # without a seed river's trees draw from OS entropy; derive it from the global generator instead,
+            # so that seeding `random` makes the whole storage reproducible like every other storage
+            seed = random.randrange(2 ** 32)
 
         self._storage_x = {cat_feature: HoeffdingAdaptiveTreeClassifier(
             max_depth=max_depth, leaf_prediction='nba', binary_split=True,
